@@ -322,6 +322,7 @@ namespace bloch::cli {
                 if (shotsProvided) {
                     // Multi-shot execution: aggregate tracked values and report a summary.
                     std::unordered_map<std::string, std::unordered_map<std::string, int>> aggregate;
+                    std::vector<std::string> aggregateOrder;  // tables in first-recorded order
                     auto start = std::chrono::steady_clock::now();
                     for (int s = 0; s < shots; ++s) {
                         bloch::runtime::RuntimeEvaluator evaluator(s == shots - 1);
@@ -332,9 +333,14 @@ namespace bloch::cli {
                         evaluator.execute(*program);
                         if (s == shots - 1)
                             qasm = evaluator.getQasm();
-                        for (const auto& vk : evaluator.trackedCounts())
-                            for (const auto& vv : vk.second)
-                                aggregate[vk.first][vv.first] += vv.second;
+                        for (const auto& table : evaluator.trackedOrder()) {
+                            auto vk = evaluator.trackedCounts().find(table);
+                            if (vk == evaluator.trackedCounts().end())
+                                continue;
+                            if (!aggregate.count(table))
+                                aggregateOrder.push_back(table);
+                            for (const auto& vv : vk->second) aggregate[table][vv.first] += vv.second;
+                        }
                     }
                     auto end = std::chrono::steady_clock::now();
                     double elapsed =
@@ -354,7 +360,11 @@ namespace bloch::cli {
                     std::cout << "Elapsed: " << elapsed << "s\n\n";
 
                     if (!aggregate.empty()) {
-                        for (auto& var : aggregate) {
+                        for (const auto& tableName : aggregateOrder) {
+                            auto varIt = aggregate.find(tableName);
+                            if (varIt == aggregate.end())
+                                continue;
+                            auto& var = *varIt;
                             // Header: e.g., "qubit q" or "qubit[] qreg"
                             std::cout << var.first << "\n";
                             std::vector<std::pair<std::string, int>> vals(var.second.begin(),
